@@ -323,6 +323,58 @@ def run_case(case):
                                     'detail': {'event': e, 'run': r2.brief()}})
                                 break
         obs['fault_runs'] = n_fault_runs
+        # ---- somebody else is at work in the same trash: right before one of
+        # the operations of the purge a directory inside a trashed tree is
+        # moved aside and a symbolic link to a directory OUTSIDE takes its
+        # name.  What the link points to stays untouched.
+        n_swaps = 0
+        tree_canaries = [c for c in case['canaries'] if s0.get(c, ('',))[0] == 'd']
+        if case.get('index', 0) % 3 == 1 and not out['violations'] and tree_canaries:
+            import random
+            srng = random.Random(case.get('fseed', 0) + 1)
+            froots = [t + '/files/' for t in case['trashes']]
+            cands = {}
+            for e in r.events:
+                for p in e.get('p') or []:
+                    rel = w.rel(p) if p else None
+                    if not rel:
+                        continue
+                    for v in (rel, os.path.dirname(rel)):
+                        if v in s0 and s0[v][0] == 'd' and \
+                                any(v.startswith(fr) for fr in froots):
+                            cands.setdefault((v, e['op']), e['k'])
+            picks = sorted(cands.items())
+            srng.shuffle(picks)
+            for (victim, op_), k_ in picks[:8]:
+                with world.World(case) as w3:
+                    u0 = w3.snapshot()
+                    plan = dict(plan0, swap_before={
+                        'k': k_, 'victim': w3.abs(victim),
+                        'aside': w3.abs(victim) + '.moved-aside',
+                        'to': w3.abs(tree_canaries[0])})
+                    opts3 = [world.subst(o, w3.R) for o in case['opts']]
+                    if case['cmd'] == 'empty':
+                        r3 = run.run(w3, 'empty', opts3, stdin=b'', plan=plan)
+                    elif case['cmd'] == 'empty-days':
+                        r3 = run.run(w3, 'empty', opts3 + [str(case['days'])],
+                                     stdin=b'', plan=plan)
+                    else:
+                        r3 = run.run(w3, 'rm', [case['pattern']], stdin=b'', plan=plan)
+                    u1 = w3.snapshot()
+                    n_swaps += 1
+                    od3 = trashworld.outside_trash_diff(u0, u1, case['trashes'])
+                    if od3:
+                        out['violations'].append({
+                            'mechanism': 'changed-outside-trash-after-directory-swap/%s' % case['cmd'],
+                            'detail': {'diff': od3[:8], 'run': r3.brief(),
+                                       'swapped': victim, 'before_op': [k_, op_]}})
+                        break
+        obs['directory_swaps'] = n_swaps
+        if case.get('abyss'):
+            # how deep the purge gets before RecursionError depends on the
+            # frames already on the interpreter's stack: not comparable
+            # between fork mode and a fresh interpreter
+            out['replayable'] = False
         out['nontrivial'] = purged > 0
         out['sample_obs'] = {'exit': r.exit, 'purged_links': purged,
                              'stderr': r.errtext()[-200:]}
